@@ -7,6 +7,7 @@ import (
 	"math/rand"
 	"os"
 	"os/exec"
+	"path"
 	"path/filepath"
 	"runtime"
 	"sort"
@@ -27,7 +28,13 @@ import (
 type fsNode struct {
 	dir  bool
 	data []byte
+	link string // non-empty: a symbolic link with this target (only in the oracle-only cases; not in the Lean model)
 }
+
+func (n fsNode) same(m fsNode) bool {
+	return n.dir == m.dir && n.link == m.link && bytes.Equal(n.data, m.data)
+}
+
 type absFS map[string]fsNode
 
 func (fs absFS) keys() []string {
@@ -46,7 +53,9 @@ func (fs absFS) enc() string {
 	var parts []string
 	for _, k := range fs.keys() {
 		n := fs[k]
-		if n.dir {
+		if n.link != "" {
+			parts = append(parts, "l."+corr.Hx([]byte(k))+"."+corr.Hx([]byte(n.link)))
+		} else if n.dir {
 			parts = append(parts, "d."+corr.Hx([]byte(k)))
 		} else {
 			parts = append(parts, "f."+corr.Hx([]byte(k))+"."+corr.Hx(n.data))
@@ -67,6 +76,8 @@ func decFS(s string) (absFS, error) {
 			fs[string(unhx(p[1]))] = fsNode{dir: true}
 		case len(p) == 3 && p[0] == "f":
 			fs[string(unhx(p[1]))] = fsNode{data: unhx(p[2])}
+		case len(p) == 3 && p[0] == "l":
+			fs[string(unhx(p[1]))] = fsNode{link: string(unhx(p[2]))}
 		default:
 			return nil, fmt.Errorf("bad fs entry %q", e)
 		}
@@ -88,7 +99,7 @@ func (fs absFS) equal(o absFS) bool {
 	}
 	for k, n := range fs {
 		m, ok := o[k]
-		if !ok || m.dir != n.dir || !bytes.Equal(m.data, n.data) {
+		if !ok || !m.same(n) {
 			return false
 		}
 	}
@@ -100,7 +111,14 @@ func materialize(root string, fs absFS) error {
 	for _, k := range fs.keys() {
 		n := fs[k]
 		p := filepath.Join(root, k)
-		if n.dir {
+		if n.link != "" {
+			if err := os.MkdirAll(filepath.Dir(p), 0o777); err != nil {
+				return err
+			}
+			if err := os.Symlink(n.link, p); err != nil {
+				return err
+			}
+		} else if n.dir {
 			if err := os.MkdirAll(p, 0o777); err != nil {
 				return err
 			}
@@ -136,6 +154,12 @@ func snapshot(root string) (absFS, error) {
 				return err
 			}
 			fs[k] = fsNode{data: d}
+		case info.Mode()&os.ModeSymlink != 0:
+			t, err := os.Readlink(p)
+			if err != nil {
+				return err
+			}
+			fs[k] = fsNode{link: t}
 		default:
 			fs[k] = fsNode{data: []byte("<special " + info.Mode().String() + ">")}
 		}
@@ -150,11 +174,11 @@ func errClass(err error) string {
 		return "nil"
 	case strings.Contains(err.Error(), "outside parent directory"):
 		return "outside"
-	case errors.Is(err, syscall.EEXIST):
+	case errors.Is(err, syscall.EEXIST), errors.Is(err, os.ErrExist):
 		return "exists"
 	case errors.Is(err, syscall.ENOTDIR):
 		return "notdir"
-	case errors.Is(err, syscall.ENOENT):
+	case errors.Is(err, syscall.ENOENT), errors.Is(err, os.ErrNotExist):
 		return "noent"
 	case errors.Is(err, syscall.EISDIR):
 		return "isdir"
@@ -219,6 +243,7 @@ type writeCase struct {
 	start absFS
 	a     *txtar.Archive
 	cli   bool // serialise with txtar.Format and extract with the built txtar-x binary instead of calling Write
+	sym   bool // the start state holds symbolic links: outside the Lean model, run against the oracle only
 }
 
 func (c writeCase) text() []byte { return txtar.Format(c.a) }
@@ -232,6 +257,9 @@ func (c writeCase) seen() *txtar.Archive {
 }
 
 func (c writeCase) line() string {
+	if c.sym {
+		return "wsym " + corr.Hx([]byte(c.dir)) + " " + c.start.enc() + " " + encArchive(c.a)
+	}
 	if c.cli {
 		return "x " + corr.Hx([]byte(c.dir)) + " " + c.start.enc() + " " + corr.Hx(c.text())
 	}
@@ -354,7 +382,7 @@ func writeOracle(res *corr.Result, c writeCase, o writeOutcome) {
 		b, okb := o.before[k]
 		a, oka := o.after[k]
 		switch {
-		case okb && (!oka || a.dir != b.dir || !bytes.Equal(a.data, b.data)):
+		case okb && (!oka || !a.same(b)):
 			res.Violate("C15", in, fmt.Sprintf("pre-existing %s was changed or removed", k), "overwrite")
 		case !okb && oka && !under(c.dir, k):
 			switch {
@@ -382,8 +410,17 @@ func writeOracle(res *corr.Result, c writeCase, o writeOutcome) {
 	if o.err == "nil" {
 		for _, f := range seenA.Files {
 			p := resolveIndep(c.dir, f.Name)
+			if b, existed := o.before[p]; existed {
+				what := "file"
+				if b.link != "" {
+					what = "symbolic link -> " + b.link
+				} else if b.dir {
+					what = "directory"
+				}
+				res.Violate("C15", in, fmt.Sprintf("Write returned nil although entry %q names the existing %s (%s)", f.Name, p, what), "no-error-for-existing-path")
+			}
 			n, ok := o.after[p]
-			if !ok || n.dir || !bytes.Equal(n.data, f.Data) {
+			if !ok || n.dir || n.link != "" || !bytes.Equal(n.data, f.Data) {
 				res.Violate("C15", in, fmt.Sprintf("Write returned nil but %s does not hold the data of entry %q", p, f.Name), "content-mismatch")
 			}
 		}
@@ -562,6 +599,126 @@ func randWriteArchive(r *rand.Rand) *txtar.Archive {
 		a.Files = append(a.Files, txtar.File{Name: name, Data: []byte(dataPool[r.Intn(len(dataPool))])})
 	}
 	return a
+}
+
+// ---------------------------------------------------------------- oracle-only cases
+
+// symlinkCases: dir = /parent/dir exists; a symbolic link sits where an entry wants to create its file.
+// With O_CREATE|O_EXCL the open fails with EEXIST whatever the link points to.
+func symlinkCases(r *rand.Rand, thorough bool) []writeCase {
+	targets := []string{"t-in", "sub/t-in", "../escaped", "../../root-escaped", "../decoy", "../b c/a", "b", "nodir/x", ".", ".."}
+	links := []string{"a", "sub/a", "b c"}
+	namesFor := map[string][]string{
+		"a":     {"a", "./a", "x/../a", "a/.", "a//", "a/b", "sub/../a"},
+		"sub/a": {"sub/a", "sub//a", "./sub/x/../a", "sub/a/b"},
+		"b c":   {"b c", "b c/", "b c/a"},
+	}
+	mk := func(link, target string) absFS {
+		_, fs := startState(0)
+		fs["/parent/dir/b"] = fsNode{data: []byte("old b\n")}
+		fs["/parent/dir/sub"] = fsNode{dir: true}
+		fs["/parent/dir/"+link] = fsNode{link: target}
+		return fs
+	}
+	var out []writeCase
+	for _, l := range links {
+		for _, t := range targets {
+			for _, n := range namesFor[l] {
+				out = append(out, writeCase{dir: "/parent/dir", start: mk(l, t), sym: true,
+					a: &txtar.Archive{Files: []txtar.File{{Name: n, Data: []byte("new " + n + "\n")}}}})
+				out = append(out, writeCase{dir: "/parent/dir", start: mk(l, t), sym: true,
+					a: &txtar.Archive{Files: []txtar.File{{Name: "ok", Data: []byte("ok\n")}, {Name: n, Data: []byte("hello\n")}, {Name: "x", Data: []byte("x\n")}}}})
+			}
+		}
+	}
+	nr := 300
+	if thorough {
+		nr = 5000
+	}
+	for i := 0; i < nr; i++ {
+		fs := mk(links[r.Intn(len(links))], targets[r.Intn(len(targets))])
+		if r.Intn(3) == 0 { // a second link
+			fs["/parent/dir/"+[]string{"c", "d", "sub/c"}[r.Intn(3)]] = fsNode{link: targets[r.Intn(len(targets))]}
+		}
+		out = append(out, writeCase{dir: "/parent/dir", start: fs, sym: true, a: randWriteArchive(r)})
+	}
+	// Out of scope (props.json: symbolic links to directories on the way to an entry are followed by MkdirAll and
+	// by the kernel's path resolution, also in the unchanged code): keep only cases where no entry passes
+	// THROUGH a link that resolves to an existing directory.  A link AT an entry's path stays, whatever it points to.
+	kept := out[:0]
+	for _, c := range out {
+		if !throughDirLink(c) {
+			kept = append(kept, c)
+		}
+	}
+	return kept
+}
+
+func throughDirLink(c writeCase) bool {
+	for l, n := range c.start {
+		if n.link == "" {
+			continue
+		}
+		resolved := path.Clean(path.Join(path.Dir(l), n.link))
+		if t, ok := c.start[resolved]; !(resolved == "/" || ok && t.dir) {
+			continue
+		}
+		for _, f := range c.a.Files {
+			if strings.HasPrefix(resolveIndep(c.dir, f.Name), l+"/") {
+				return true
+			}
+		}
+	}
+	return false
+}
+
+// concurrentOracle: n goroutines Write the same single-entry archive (with their own data) into one existing
+// directory at the same moment. O_EXCL makes exactly one of them succeed.
+func concurrentOracle(res *corr.Result, tmp string, n, rounds int) {
+	in := fmt.Sprintf("wconc %d %d", n, rounds)
+	for round := 0; round < rounds; round++ {
+		res.OracleChecked["C15"]++
+		res.Distribution["write:oracle-only-concurrent"]++
+		dir := filepath.Join(tmp, fmt.Sprintf("conc%d", round))
+		if err := os.Mkdir(dir, 0o777); err != nil {
+			res.Observations = append(res.Observations, "sandbox problem: "+err.Error())
+			return
+		}
+		errs := make([]string, n)
+		start := make(chan struct{})
+		var wg sync.WaitGroup
+		for g := 0; g < n; g++ {
+			wg.Add(1)
+			go func(g int) {
+				defer wg.Done()
+				a := &txtar.Archive{Files: []txtar.File{{Name: "sub/f", Data: bytes.Repeat([]byte(fmt.Sprintf("writer %d\n", g)), 64)}}}
+				<-start
+				errs[g] = errClass(txtar.Write(a, dir))
+			}(g)
+		}
+		close(start)
+		wg.Wait()
+		winners := 0
+		var winner int
+		for g, e := range errs {
+			switch e {
+			case "nil":
+				winners++
+				winner = g
+			case "exists":
+			default:
+				res.Violate("C15", in, "a concurrent writer got the unexpected error "+e, "concurrent-writers-unexpected-error")
+			}
+		}
+		data, _ := os.ReadFile(filepath.Join(dir, "sub", "f"))
+		switch {
+		case winners != 1:
+			res.Violate("C15", in, fmt.Sprintf("%d of %d concurrent writers of the same entry returned nil (an existing file was overwritten)", winners, n), "concurrent-writers-not-exclusive")
+		case !bytes.Equal(data, bytes.Repeat([]byte(fmt.Sprintf("writer %d\n", winner)), 64)):
+			res.Violate("C15", in, "the file does not hold the data of the one writer that succeeded", "concurrent-writers-content")
+		}
+		os.RemoveAll(dir)
+	}
 }
 
 // ---------------------------------------------------------------- trees (round trip)
@@ -1052,6 +1209,8 @@ func runFsx(tier string, seed int64, model string, replay string) *corr.Result {
 	var cleanIn []string
 	var wcases []writeCase
 	var rcases []rtCase
+	var scases []writeCase // symbolic links in the start state: oracle only, no model comparison
+	concRounds, concN := 0, 8
 
 	if replay != "" {
 		f := strings.Fields(replay)
@@ -1066,6 +1225,17 @@ func runFsx(tier string, seed int64, model string, replay string) *corr.Result {
 				return res
 			}
 			wcases = append(wcases, writeCase{dir: string(unhx(f[1])), start: fs, a: a})
+		case len(f) == 4 && f[0] == "wsym":
+			fs, e1 := decFS(f[2])
+			a, e2 := decArchive(f[3])
+			if e1 != nil || e2 != nil {
+				res.Disagree(replay, "unparsable replay case", "")
+				return res
+			}
+			scases = append(scases, writeCase{dir: string(unhx(f[1])), start: fs, a: a, sym: true})
+		case len(f) == 3 && f[0] == "wconc":
+			fmt.Sscanf(f[1], "%d", &concN)
+			fmt.Sscanf(f[2], "%d", &concRounds)
 		case len(f) == 4 && f[0] == "x":
 			fs, e1 := decFS(f[2])
 			if e1 != nil {
@@ -1211,6 +1381,12 @@ func runFsx(tier string, seed int64, model string, replay string) *corr.Result {
 		}
 		res.Extra["exhaustive_spaces"] = append(res.Extra["exhaustive_spaces"].([]string),
 			fmt.Sprintf("txtar.Write, two-entry archives: all pairs of names of 1..%d segments (%d names) against start states %v", pairSeg, len(shortNames), pairStates))
+		// ---- oracle-only: symbolic links at (or on the way to) an entry's path; concurrent extractions
+		scases = symlinkCases(r, thorough)
+		concRounds = 40
+		if thorough {
+			concRounds = 400
+		}
 		// ---- round trip
 		nrt := 400
 		if thorough {
@@ -1265,6 +1441,10 @@ func runFsx(tier string, seed int64, model string, replay string) *corr.Result {
 	wout := make([]writeOutcome, len(wcases))
 	parallel(len(wcases), func(i, k int) {
 		wout[i] = runWriteImpl(filepath.Join(tmp, fmt.Sprintf("w%d-%d", k, i)), wcases[i], binX)
+	})
+	sout := make([]writeOutcome, len(scases))
+	parallel(len(scases), func(i, k int) {
+		sout[i] = runWriteImpl(filepath.Join(tmp, fmt.Sprintf("s%d-%d", k, i)), scases[i], binX)
 	})
 	rout := make([]rtOutcome, len(rcases))
 	if len(rcases) > 0 {
@@ -1349,6 +1529,28 @@ func runFsx(tier string, seed int64, model string, replay string) *corr.Result {
 			res.Distribution["write:dir-missing-at-start"]++
 		}
 	}
+	for i, c := range scases {
+		o := sout[i]
+		if o.setupErr != nil {
+			res.Observations = append(res.Observations, "sandbox problem: "+o.setupErr.Error())
+			res.Disagree(c.line(), "setup: "+o.setupErr.Error(), "")
+			continue
+		}
+		if !o.before.equal(c.start) {
+			res.Disagree(c.line(), "start state could not be materialised: "+o.before.enc(), "")
+			continue
+		}
+		writeOracle(res, c, o)
+		res.Distribution["write:oracle-only-symlink"]++
+		res.Distribution["write:oracle-only-symlink:err="+strings.SplitN(o.err, ":", 2)[0]]++
+		nontrivial[c.line()] = true
+	}
+	if concRounds > 0 {
+		concurrentOracle(res, tmp, concN, concRounds)
+	}
+	res.Extra["oracle_only"] = fmt.Sprintf("%d Write cases whose start state has a symbolic link at an entry's path or on the way to it (dangling into dir, dangling to a location outside dir, to existing files inside and outside) "+
+		"and %d rounds of %d goroutines writing the same single-entry archive into one directory are run against the property oracle only: symbolic links and concurrency are not in the Lean file-system model, so there is no model comparison for them. "+
+		"Oracle: the entry must be refused, nothing may appear or change at the link target or anywhere outside dir; of concurrent writers exactly one succeeds, the others get EEXIST, the file holds the winner's data.", len(scases), concRounds, concN)
 	rtChecked := 0
 	for i, c := range rcases {
 		o := rout[i]
